@@ -1089,55 +1089,90 @@ class Session:
             self.violate(prop, v["sig"], f"after {name}{tag}: {v['detail']}", name + tag, extra)
 
     def fission_pred(self, pid_in):
-        """Is a loop-invariant location (scalar / constant index) ASSIGNED before
-        the fission point and accessed after it?  (The recorded fission defect.)"""
+        """Structural class of the recorded fission defect: with respect to one of
+        the loops being split, the first half only WRITES (assigns / reduces) a
+        location that does not move with that loop and never reads it, and the
+        second half uses that buffer.  (The dependence carried by the loop through
+        a loop-invariant location is missed.)"""
         try:
             rec = self.cur_rec
             g = rec["args"][0]
             src = self.procs[g["p"]]._loopir_proc
             path = [(a, i) for a, i in g["path"]]
+            n_lifts = int((rec.get("kw") or {}).get("n_lifts", 1))
+            # walk up: at each level collect statements before / after the cut inside the enclosing loop
+            nodes = [src]
             node = src
-            for a, i in path[:-1]:
+            for a, i in path:
                 node = getattr(node, a)
                 if i is not None:
                     node = node[i]
-            attr, idx = path[-1]
-            stmts = getattr(node, attr)
-            cut = idx + 1 if g.get("after") else idx
-            first, second = stmts[:cut], stmts[cut:]
-            inv = set()
+                nodes.append(node)
+            first, second = [], []
+            level = len(path) - 1
+            cut_after = bool(g.get("after"))
+            lifts = 0
+            while level >= 0 and lifts < n_lifts:
+                parent = nodes[level]
+                attr, idx = path[level]
+                stmts = getattr(parent, attr)
+                cut = idx + 1 if cut_after else idx
+                first = list(stmts[:cut]) if lifts == 0 else list(stmts[:idx]) + first
+                second = (list(stmts[cut:]) if lifts == 0 else second + list(stmts[idx + 1 :]))
+                if isinstance(parent, LoopIR.For):
+                    lifts += 1
+                    it = parent.iter
+                    wr, rd1 = {}, set()
 
-            def scan(ss):
-                for st in ss:
-                    if isinstance(st, LoopIR.Assign) and all(isinstance(e, LoopIR.Const) for e in st.idx):
-                        inv.add(st.name)
-                    elif isinstance(st, LoopIR.If):
-                        scan(st.body)
-                        scan(st.orelse)
-                    elif isinstance(st, LoopIR.For):
-                        scan(st.body)
+                    def mentions(e, sym):
+                        return any(nm == sym for _, nm in _reads_of(e))
 
-            scan(first)
-            touched = {sym for _, _, sym in _buffers_in(second)}
-            for st in second:
-                if isinstance(st, (LoopIR.Assign, LoopIR.Reduce)):
-                    touched.add(st.name)
-            # scalar accesses have no index list and are not reported by _buffers_in
-            def scal(ss):
-                for st in ss:
-                    if isinstance(st, (LoopIR.Assign, LoopIR.Reduce)):
-                        touched.add(st.name)
-                        for _p, e in _reads_of(st.rhs):
-                            touched.add(e)
-                    elif isinstance(st, LoopIR.If):
-                        scal(st.body)
-                        scal(st.orelse)
-                    elif isinstance(st, LoopIR.For):
-                        scal(st.body)
+                    def scan1(ss):
+                        for st in ss:
+                            if isinstance(st, (LoopIR.Assign, LoopIR.Reduce)):
+                                inv = not any(mentions(e, it) for e in st.idx)
+                                wr.setdefault(st.name, []).append(inv)
+                                for _p, nm in _reads_of(st.rhs):
+                                    rd1.add(nm)
+                            elif isinstance(st, LoopIR.If):
+                                for _p, nm in _reads_of(st.cond):
+                                    rd1.add(nm)
+                                scan1(st.body)
+                                scan1(st.orelse)
+                            elif isinstance(st, LoopIR.For):
+                                scan1(st.body)
+                            elif isinstance(st, LoopIR.Call):
+                                for e in st.args:
+                                    if isinstance(e, (LoopIR.Read, LoopIR.WindowExpr)):
+                                        rd1.add(e.name)
 
-            scal(second)
-            if inv & touched:
-                return "loop-invariant-assign-carried"
+                    used2 = set()
+
+                    def scan2(ss):
+                        for st in ss:
+                            if isinstance(st, (LoopIR.Assign, LoopIR.Reduce)):
+                                used2.add(st.name)
+                                for _p, nm in _reads_of(st.rhs):
+                                    used2.add(nm)
+                            elif isinstance(st, LoopIR.If):
+                                for _p, nm in _reads_of(st.cond):
+                                    used2.add(nm)
+                                scan2(st.body)
+                                scan2(st.orelse)
+                            elif isinstance(st, LoopIR.For):
+                                scan2(st.body)
+                            elif isinstance(st, LoopIR.Call):
+                                for e in st.args:
+                                    if isinstance(e, (LoopIR.Read, LoopIR.WindowExpr)):
+                                        used2.add(e.name)
+
+                    scan1(first)
+                    scan2(second)
+                    for nm, invs in wr.items():
+                        if any(invs) and nm not in rd1 and nm in used2:
+                            return "invariant-location-written-then-used"
+                level -= 1
+                cut_after = False
         except Exception:
             pass
         return ""
@@ -1196,9 +1231,11 @@ class Session:
                 vs = kept
             if vs:
                 v = vs[0]
+                ex = {"stmt": v["stmt_class"]}
+                if v.get("attr"):
+                    ex["attr"] = v["attr"]
                 self.violate(
-                    "C06", v["sig"], f"after {name} (hop {hop}): {v['detail']} [cursor path {v['path']}]", name,
-                    {"stmt": v["stmt_class"]},
+                    "C06", v["sig"], f"after {name} (hop {hop}): {v['detail']} [cursor path {v['path']}]", name, ex,
                 )
                 break
 
